@@ -622,6 +622,124 @@ static void run_shape(vrt_rng *r, int n, char *desc, size_t dl)
     (void)qn;
 }
 
+/* ======================================================================= */
+/* mode=handoff: release-and-wait must be atomic.  The waiter W sets `waiting`
+ * under the mutex and calls cond_wait / cond_timedwait (deadline 2 s away).
+ * The signaller S spins on trylock; the first time it owns the mutex with
+ * `waiting` set it records the time, signals and unlocks.  Since W released
+ * the mutex and started waiting atomically, that signal cannot be lost: W must
+ * return ABT_SUCCESS.  A TIMEDOUT return although the signal was issued well
+ * before the deadline is a lost signal.  Helper threads keep the mutex busy. */
+static struct {
+    ABT_mutex m;
+    ABT_cond c;
+    int waiting;      /* under m */
+    int signalled;    /* under m */
+    int64_t t_signal; /* under m */
+    int stop;         /* atomic */
+    int trial_done;   /* atomic */
+    int timed;
+} g_ho;
+static int c_ho_trials, c_ho_timed, c_ho_untimed, c_ho_helpers;
+static void *ho_helper(void *arg)
+{
+    (void)arg;
+    while (!__atomic_load_n(&g_ho.stop, __ATOMIC_SEQ_CST)) {
+        if (ABT_mutex_trylock(g_ho.m) == ABT_SUCCESS)
+            ABT_mutex_unlock(g_ho.m);
+        for (volatile int i = 0; i < 30; i++)
+            ;
+    }
+    return NULL;
+}
+static void ho_waiter(void *arg)
+{
+    (void)arg;
+    VRT_ABT(ABT_mutex_lock(g_ho.m));
+    g_ho.waiting = 1;
+    int rc;
+    int64_t deadline = 0;
+    if (g_ho.timed) {
+        deadline = vclock_now_ns() + 2000000000LL;
+        struct timespec ts = vclock_ts(deadline);
+        rc = ABT_cond_timedwait(g_ho.c, g_ho.m, &ts);
+    } else {
+        vrt_call_begin("ABT_cond_wait of a waiter that has been signalled");
+        rc = ABT_cond_wait(g_ho.c, g_ho.m);
+        vrt_call_end();
+    }
+    g_ho.waiting = 0;
+    if (rc == ABT_ERR_COND_TIMEDOUT) {
+        if (g_ho.signalled && g_ho.t_signal + 500000000LL < deadline)
+            vrt_violation("cond:signal-lost-in-release-and-wait",
+                          "a signaller that owned the mutex after the waiter had released it inside ABT_cond_timedwait "
+                          "signalled %.3f s before the deadline, but the waiter returned ABT_ERR_COND_TIMEDOUT",
+                          (double)(deadline - g_ho.t_signal) / 1e9);
+    } else if (rc != ABT_SUCCESS) {
+        vrt_violation("cond:wait-rc", "wait returned %d", rc);
+    }
+    VRT_ABT(ABT_mutex_unlock(g_ho.m));
+    __atomic_store_n(&g_ho.trial_done, 1, __ATOMIC_SEQ_CST);
+}
+static void run_handoff(vrt_rng *r, int trials)
+{
+    VRT_ABT(ABT_init(0, NULL));
+    ABT_xstream xs;
+    ABT_pool pool;
+    VRT_ABT(ABT_xstream_create(ABT_SCHED_NULL, &xs));
+    VRT_ABT(ABT_xstream_get_main_pools(xs, 1, &pool));
+    VRT_ABT(ABT_mutex_create(&g_ho.m));
+    VRT_ABT(ABT_cond_create(&g_ho.c));
+    int nh = (int)vrt_range(r, 4);
+    pthread_t hp[3];
+    g_ho.stop = 0;
+    for (int i = 0; i < nh; i++)
+        pthread_create(&hp[i], NULL, ho_helper, NULL);
+    vrt_count(c_ho_helpers, (uint64_t)nh);
+    for (int t = 0; t < trials && vrt_num_violations() == 0; t++) {
+        g_ho.waiting = g_ho.signalled = 0;
+        g_ho.trial_done = 0;
+        g_ho.timed = vrt_range(r, 4) != 0;
+        vrt_count(g_ho.timed ? c_ho_timed : c_ho_untimed, 1);
+        ABT_thread w;
+        VRT_ABT(ABT_thread_create(pool, ho_waiter, NULL, ABT_THREAD_ATTR_NULL, &w));
+        /* the signaller: the primary ULT */
+        for (;;) {
+            if (ABT_mutex_trylock(g_ho.m) == ABT_SUCCESS) {
+                if (g_ho.waiting) {
+                    g_ho.signalled = 1;
+                    g_ho.t_signal = vclock_now_ns();
+                    VRT_ABT(ABT_cond_signal(g_ho.c));
+                    VRT_ABT(ABT_mutex_unlock(g_ho.m));
+                    break;
+                }
+                VRT_ABT(ABT_mutex_unlock(g_ho.m));
+            }
+            if (vrt_num_violations())
+                break;
+        }
+        VRT_ABT(ABT_thread_join(w));
+        VRT_ABT(ABT_thread_free(&w));
+        vrt_count(c_ho_trials, 1);
+        if ((t & 63) == 0)
+            vrt_progress();
+    }
+    __atomic_store_n(&g_ho.stop, 1, __ATOMIC_SEQ_CST);
+    for (int i = 0; i < nh; i++)
+        pthread_join(hp[i], NULL);
+    if (vrt_num_violations())
+        return;
+    VRT_ABT(ABT_cond_free(&g_ho.c));
+    VRT_ABT(ABT_mutex_free(&g_ho.m));
+    VRT_ABT(ABT_xstream_join(xs));
+    VRT_ABT(ABT_xstream_free(&xs));
+    VRT_ABT(ABT_finalize());
+    vrt_sample("handoff: %d trials, waiter on a second stream (3/4 timed with a 2 s deadline), signaller = primary ULT "
+               "spinning on trylock, %d helper threads keeping the mutex busy", trials, nh);
+    vrt_signature_add("handoff,h%d", nh);
+    vrt_count(c_cases, 1);
+}
+
 int main(int argc, char **argv)
 {
     vrt_init(argc, argv, "h_cond");
@@ -646,7 +764,17 @@ int main(int argc, char **argv)
     c_distinct = vrt_counter("distinct_nontrivial");
     vrt_rng r;
     vrt_rng_init(&r, vrt_seed, 11);
-    if (!strcmp(mode, "soup")) {
+    if (!strcmp(mode, "handoff")) {
+        c_ho_trials = vrt_counter("handoff_trials");
+        c_ho_timed = vrt_counter("handoff_timed_waits");
+        c_ho_untimed = vrt_counter("handoff_untimed_waits");
+        c_ho_helpers = vrt_counter("handoff_helper_threads");
+        vrt_supervisor_start();
+        int rounds = (int)vrt_arg_int("rounds", 4);
+        for (int i = 0; i < rounds && vrt_num_violations() == 0; i++)
+            run_handoff(&r, (int)vrt_arg_int("trials", 2000));
+        return vrt_finish("cond_handoff");
+    } else if (!strcmp(mode, "soup")) {
         int rounds = (int)vrt_arg_int("rounds", 8);
         int quota = (int)vrt_arg_int("quota", 400);
         int max_es = (int)vrt_arg_int("max-es", 4);
